@@ -6,6 +6,7 @@ import MindsVerif.Lemmas.IdentBq
 import MindsVerif.Lemmas.Variable
 import MindsVerif.Lemmas.PreLex
 import MindsVerif.Lemmas.Hist
+import MindsVerif.Lemmas.CodecDq
 import MindsVerif.Model.LexTab
 import MindsVerif.Gen.Lex_sqlite
 import MindsVerif.Gen.Lex_mysql
@@ -625,5 +626,37 @@ example : Hist.runLive Hist.ListOp.apply (LexBq.partsToStr reservedL)
        .act (.insert 0 "Proj.A".toList), .obs, .act (.setItem 1 "NAME".toList), .obs] [] =
       ["Int1.`My Tab`".toList, "`My Tab`".toList, "`Proj.A`.`My Tab`".toList, "`Proj.A`.NAME".toList] := by
   decide +kernel
+
+/-! ## Round 6: constant slots — a constant reaches the text through the printer of the node that HOLDS it
+
+`Insert.to_value` (VALUES cells), `Update` (SET values), `Case`, `Function`, `Tuple`, `BetweenOperation`, `TypeCast`, `Set`,
+`Show … LIKE`, LIMIT / OFFSET, and the `USING` / `PARAMETERS` dictionaries (raw Python strings printed by `json_to_sql`,
+model `Codec.jsonStrToSql`).  Which positions exist is discovered at run time (`tools/harness/slots.py`); the `slot-print`
+stream checks, slot by slot and value by value, that the statement text is `pre ++ printer v ++ post` with `printer` one of
+the two modelled string printers and `(pre, post)` the frame of the slot.  For such a text, for EVERY value: -/
+
+/-- a slot printed with the library codec: the reader started where the literal starts returns exactly the value and
+stops exactly where the frame continues (any frame whose continuation does not start with a quote) -/
+theorem C04_slot_readback (pre post v : List Char) (hp : post.head? ≠ some '\'') :
+    Codec.readString ((pre ++ Codec.constantToString v ++ post).drop pre.length) = some (v, post) := by
+  rw [List.append_assoc, List.drop_left]
+  exact Codec.roundtrip v post hp
+
+/-- the second string printer (`json_to_sql`, double quotes): every string is read back, any continuation -/
+theorem C04_codec_roundtrip_dq (v rest : List Char) :
+    Codec.readString (Codec.jsonStrToSql v ++ rest) = some (v, rest) := Codec.roundtrip_dq v rest
+
+theorem C04_slot_readback_dq (pre post v : List Char) :
+    Codec.readString ((pre ++ Codec.jsonStrToSql v ++ post).drop pre.length) = some (v, post) := by
+  rw [List.append_assoc, List.drop_left]
+  exact Codec.roundtrip_dq v post
+
+/-- the class of the escaped change (a cell printed with Python's `repr`): `repr('a\nb')` is the text `'a\nb'` with the
+two characters backslash, `n` — a well-formed literal that denotes ANOTHER value; the two model printers on the same
+value are read back -/
+theorem C04_witness_repr_cell :
+    Codec.readString "'a\\nb'".toList = some ("a\\nb".toList, []) ∧ "a\\nb".toList ≠ "a\nb".toList ∧
+    Codec.readString (Codec.constantToString "a\nb\x00 ".toList) = some ("a\nb\x00 ".toList, []) ∧
+    Codec.readString (Codec.jsonStrToSql "a\nb\"\\".toList) = some ("a\nb\"\\".toList, []) := by decide +kernel
 
 end MindsVerif.Props.C04
